@@ -108,6 +108,35 @@ func HarnessC10Lookups() {
 		w.rm = r.rm
 		undone = true
 	}
+	if verifParam("restore", 0) == 1 {
+		// look-ups on forests restored from their own serialization
+		if w.p != nil {
+			sw := &symWriter{failAt: -1}
+			_, err := w.p.WriteTo(sw)
+			verifAssume(err == nil)
+			_, q, err := RestorePollardFrom(&symReader{data: sw.data, limit: len(sw.data), shortCall: -1})
+			verifAssume(err == nil)
+			w.p = q
+		}
+		if w.full != nil {
+			sw := &symWriter{failAt: -1}
+			_, err := w.full.Write(sw)
+			verifAssume(err == nil)
+			q := NewMapPollard(true)
+			_, err = q.Read(&symReader{data: sw.data, limit: len(sw.data), shortCall: -1})
+			verifAssume(err == nil)
+			w.full = &q
+		}
+		if w.part != nil {
+			sw := &symWriter{failAt: -1}
+			_, err := w.part.Write(sw)
+			verifAssume(err == nil)
+			q := NewMapPollard(false)
+			_, err = q.Read(&symReader{data: sw.data, limit: len(sw.data), shortCall: -1})
+			verifAssume(err == nil)
+			w.part = &q
+		}
+	}
 	v := w.rm.view()
 	live := w.rm.liveSlots()
 	remembered := false
